@@ -579,6 +579,26 @@ func (c *Ctx) lockRules(guarded map[*types.Named]bool) {
 				if isInitFunc(fn) {
 					continue
 				}
+				if ft == "sync.Once" {
+					// goroutine-safe as long as it is used through Do only (never copied, reset or handed on)
+					nacc++
+					var other []string
+					for _, r := range *fa.Referrers() {
+						if _, isDbg := r.(*ssa.DebugRef); isDbg {
+							continue
+						}
+						if fld, _, _, isDo := onceDo(r, n); !isDo || fld != fa.Field {
+							other = append(other, c.pos(r.Pos()))
+						}
+					}
+					onceName := n.Obj().Name() + "." + st.Field(fa.Field).Name()
+					if len(other) > 0 {
+						c.fail("ISO-LOCK", c.fname(fn), onceName, ins.Pos(), "the sync.Once "+onceName+" that publishes lazily built state is used other than as the receiver of Do (copied, overwritten or handed on): "+joinMax(other, 4))
+					} else {
+						c.ok("ISO-LOCK", c.fname(fn), onceName, ins.Pos(), "the sync.Once is used as the receiver of Do only", "")
+					}
+					continue
+				}
 				if al, ok := fa.X.(*ssa.Alloc); ok && al.Parent() == fn {
 					continue // construction
 				}
@@ -655,10 +675,14 @@ func (c *Ctx) lockRules(guarded map[*types.Named]bool) {
 		}
 		if okAll {
 			c.ok("ISO-LOCK", c.fname(a.fn), fieldName, a.ins.Pos(), fmt.Sprintf("all %d call sites hold the lock on the receiver", ncalls), "")
+		} else if onceFld, byOnce := c.publishedByOnce(n, a.fa.Field); byOnce {
+			c.ok("ISO-LOCK", c.fname(a.fn), fieldName, a.ins.Pos(), "every write of the field happens inside "+n.Obj().Name()+"."+st.Field(onceFld).Name()+".Do on the same receiver, every read there or after such a call has returned", "")
 		} else {
 			c.fail("ISO-LOCK", c.fname(a.fn), fieldName, a.ins.Pos(), "access to mutex-guarded field "+fieldName+" without the lock: no dominating Lock in the function, and "+why)
 		}
 	}
+	c.lockCopies(guarded)
+	c.onceMemos()
 	c.floor("ISO-LOCK", 4)
 
 	// ISO-PUBLISH: a map stored into a guarded field must not be updated
@@ -938,4 +962,471 @@ func (c *Ctx) memoProducer(g *ssa.Global) *ssa.Function {
 		return nil
 	}
 	return prod
+}
+
+// ---- lazily initialised shared state behind sync.Once --------------------------------------
+//
+// A field F of a mutex-carrying struct may be published through a sync.Once field O of the same
+// struct instead of the mutex: every write of F happens inside the function handed to
+// (&x.O).Do, and every read happens there or after a call (&x.O).Do(…) on the same x has
+// returned (the completion of the function happens-before the return of every Do).  The
+// discipline must hold for *all* accesses of F; a single access outside it leaves the field to
+// the mutex rule.
+
+// lockBase names the object a pointer designates, across the representation go/ssa chooses:
+// cells that are stored once, variables captured by a function literal (resolved through the
+// literal's only make-closure site), package-level pointers (the variable stands for its value;
+// ISO-GLOBALSTORE shows it is not reassigned).
+func lockBase(v ssa.Value) ssa.Value {
+	for i := 0; i < 8; i++ {
+		v = origin(v)
+		u, ok := v.(*ssa.UnOp)
+		if !ok || u.Op != token.MUL {
+			return v
+		}
+		switch x := u.X.(type) {
+		case *ssa.Global:
+			return x
+		case *ssa.FreeVar:
+			fn := x.Parent()
+			idx := -1
+			for j, fv := range fn.FreeVars {
+				if fv == x {
+					idx = j
+				}
+			}
+			par := fn.Parent()
+			if idx < 0 || par == nil {
+				return v
+			}
+			var site *ssa.MakeClosure
+			n := 0
+			eachInstr(par, func(ins ssa.Instruction) {
+				if mc, ok := ins.(*ssa.MakeClosure); ok && mc.Fn == ssa.Value(fn) {
+					site = mc
+					n++
+				}
+			})
+			if n != 1 || idx >= len(site.Bindings) {
+				return v
+			}
+			al, ok := site.Bindings[idx].(*ssa.Alloc)
+			if !ok {
+				return v
+			}
+			s := singleStore(al)
+			if s == nil {
+				return v
+			}
+			v = s
+		default:
+			return v
+		}
+	}
+	return v
+}
+
+// onceDo: ins is a call (&x.O).Do(f) with O a sync.Once field of a struct of type n.
+func onceDo(ins ssa.Instruction, n *types.Named) (field int, base, f ssa.Value, ok bool) {
+	call, isCall := ins.(*ssa.Call)
+	if !isCall {
+		return 0, nil, nil, false
+	}
+	sc := call.Call.StaticCallee()
+	if sc == nil || sc.String() != "(*sync.Once).Do" || len(call.Call.Args) != 2 {
+		return 0, nil, nil, false
+	}
+	fa, isFA := call.Call.Args[0].(*ssa.FieldAddr)
+	if !isFA {
+		return 0, nil, nil, false
+	}
+	if pn, isN := fa.X.Type().Underlying().(*types.Pointer).Elem().(*types.Named); !isN || pn != n {
+		return 0, nil, nil, false
+	}
+	return fa.Field, fa.X, call.Call.Args[1], true
+}
+
+type onceKey struct {
+	fn   *ssa.Function
+	base ssa.Value
+}
+
+// onceState decides the sync.Once discipline for the structs of one type.
+type onceState struct {
+	c     *Ctx
+	n     *types.Named
+	memo  map[onceKey][2]map[int]bool
+	busy  map[onceKey]bool
+	users map[*ssa.Function][]ssa.Instruction // instructions of module functions that mention a function
+}
+
+func (c *Ctx) newOnceState(n *types.Named) *onceState {
+	o := &onceState{c: c, n: n, memo: map[onceKey][2]map[int]bool{}, busy: map[onceKey]bool{}, users: map[*ssa.Function][]ssa.Instruction{}}
+	for _, fn := range c.modFuncs {
+		eachInstr(fn, func(ins ssa.Instruction) {
+			for _, op := range ins.Operands(nil) {
+				switch f := (*op).(type) {
+				case *ssa.Function:
+					o.users[f] = append(o.users[f], ins)
+					// the wrapper of a method value x.m stands for the method
+					if f.Synthetic != "" && f.Object() != nil {
+						if m, ok := f.Object().(*types.Func); ok {
+							if mf := c.prog.FuncValue(m); mf != nil && mf != f {
+								o.users[mf] = append(o.users[mf], ins)
+							}
+						}
+					}
+				}
+			}
+		})
+	}
+	return o
+}
+
+func intersect(a, b map[int]bool) map[int]bool {
+	out := map[int]bool{}
+	for k := range a {
+		if b[k] {
+			out[k] = true
+		}
+	}
+	return out
+}
+
+// at: the once fields O of the struct designated by base (a value of ins's function) such that
+// ins executes inside the function handed to (&base.O).Do (in), or after such a call has
+// returned (done).
+func (o *onceState) at(ins ssa.Instruction, base ssa.Value, depth int) (in, done map[int]bool) {
+	fn := ins.Parent()
+	in, done = o.function(fn, base, depth)
+	out := map[int]bool{}
+	for k := range done {
+		out[k] = true
+	}
+	lb := lockBase(base)
+	for _, b := range fn.Blocks {
+		for i, di := range b.Instrs {
+			if fld, dbase, _, ok := onceDo(di, o.n); ok && lockBase(dbase) == lb && instrDominates(b, i, ins) {
+				out[fld] = true
+			}
+		}
+	}
+	return in, out
+}
+
+// function: the same for every execution of fn, with base a value of fn that does not depend on
+// the point of execution (a parameter, a captured variable, a package-level pointer).
+func (o *onceState) function(fn *ssa.Function, base ssa.Value, depth int) (in, done map[int]bool) {
+	none := map[int]bool{}
+	key := onceKey{fn, base}
+	if r, ok := o.memo[key]; ok {
+		return r[0], r[1]
+	}
+	if depth > 4 || o.busy[key] || isInitFunc(fn) {
+		return none, none
+	}
+	o.busy[key] = true
+	defer delete(o.busy, key)
+	first := true
+	merge := func(i, d map[int]bool) {
+		if first {
+			in, done, first = i, d, false
+			return
+		}
+		in, done = intersect(in, i), intersect(done, d)
+	}
+	lb := lockBase(base)
+	pidx := -1
+	if p, ok := origin(base).(*ssa.Parameter); ok {
+		for i, q := range fn.Params {
+			if q == p {
+				pidx = i
+			}
+		}
+	}
+	if exportedAPI(fn) {
+		merge(none, none)
+	}
+	for _, use := range o.users[fn] {
+		// the value of fn (the function itself, its closure, the wrapper of a method value)
+		var fv ssa.Value
+		var recvBinding ssa.Value
+		switch u := use.(type) {
+		case *ssa.MakeClosure:
+			fv = u
+			if u.Fn != ssa.Value(fn) { // wrapper of the method value x.fn: x is the only binding
+				if len(u.Bindings) != 1 {
+					merge(none, none)
+					continue
+				}
+				recvBinding = u.Bindings[0]
+			}
+		case ssa.CallInstruction:
+			com := u.Common()
+			if com.StaticCallee() == fn {
+				if _, isCall := use.(*ssa.Call); !isCall || pidx < 0 || pidx >= len(com.Args) {
+					merge(none, none)
+					continue
+				}
+				i, d := o.at(use, com.Args[pidx], depth+1)
+				merge(i, d)
+				continue
+			}
+			fv = fn
+		default:
+			merge(none, none)
+			continue
+		}
+		// every use of the function value must be the argument of a Do
+		var dos []ssa.Instruction
+		okUses := true
+		if fv == ssa.Value(fn) {
+			dos = append(dos, use)
+		} else {
+			for _, r := range *fv.Referrers() {
+				if _, ok := r.(*ssa.DebugRef); ok {
+					continue
+				}
+				dos = append(dos, r)
+			}
+		}
+		for _, di := range dos {
+			fld, dbase, f, ok := onceDo(di, o.n)
+			if !ok || f != fv {
+				okUses = false
+				break
+			}
+			same := false
+			if recvBinding != nil {
+				same = pidx == 0 && lockBase(recvBinding) == lockBase(dbase)
+			} else {
+				same = lb == lockBase(dbase)
+			}
+			if !same {
+				okUses = false
+				break
+			}
+			_, d := o.at(di, dbase, depth+1)
+			merge(map[int]bool{fld: true}, d)
+		}
+		if !okUses {
+			merge(none, none)
+		}
+	}
+	if first {
+		in, done = none, none
+	}
+	o.memo[key] = [2]map[int]bool{in, done}
+	return in, done
+}
+
+// onceCache: results of publishedByOnce and the onceState of each struct type (keys are objects
+// of the loaded program, so entries of different loads never meet).
+var onceCache = map[any]any{}
+
+// publishedByOnce: field `field` of the structs of type n follows the sync.Once discipline
+// described above, for one once field of the same struct.
+func (c *Ctx) publishedByOnce(n *types.Named, field int) (once int, ok bool) {
+	type key struct {
+		n *types.Named
+		f int
+	}
+	if r, hit := onceCache[key{n, field}]; hit {
+		v := r.([2]int)
+		return v[0], v[1] == 1
+	}
+	st := n.Underlying().(*types.Struct)
+	var candidates map[int]bool
+	for i := 0; i < st.NumFields(); i++ {
+		if st.Field(i).Type().String() == "sync.Once" {
+			if candidates == nil {
+				candidates = map[int]bool{}
+			}
+			candidates[i] = true
+		}
+	}
+	res := [2]int{0, 0}
+	if len(candidates) > 0 {
+		os, _ := onceCache[n].(*onceState)
+		if os == nil {
+			os = c.newOnceState(n)
+			onceCache[n] = os
+		}
+		writes := 0
+		for _, fn := range c.modFuncs {
+			if isInitFunc(fn) {
+				continue
+			}
+			eachInstr(fn, func(ins ssa.Instruction) {
+				fa, isFA := ins.(*ssa.FieldAddr)
+				if !isFA || fa.Field != field || len(candidates) == 0 {
+					return
+				}
+				if pn, isN := fa.X.Type().Underlying().(*types.Pointer).Elem().(*types.Named); !isN || pn != n {
+					return
+				}
+				if al, isAl := fa.X.(*ssa.Alloc); isAl && al.Parent() == fn {
+					return // construction
+				}
+				in, done := os.at(ins, fa.X, 0)
+				isWrite := c.writesGuarded(fa)
+				if isWrite {
+					writes++
+				}
+				for o := range candidates {
+					if !(in[o] || !isWrite && done[o]) {
+						delete(candidates, o)
+					}
+				}
+			})
+		}
+		if len(candidates) > 0 && writes > 0 {
+			best := -1
+			for o := range candidates {
+				if best < 0 || o < best {
+					best = o
+				}
+			}
+			res = [2]int{best, 1}
+		}
+	}
+	onceCache[key{n, field}] = res
+	return res[0], res[1] == 1
+}
+
+// lockCopies: a mutex orders the accesses of all goroutines only if they all lock the same
+// mutex.  A copy of a mutex-carrying struct has a mutex of its own but shares the maps and slices
+// of the original, so code that locks "the" mutex of the copy excludes nobody (value receiver,
+// `x := *p`, passing or returning the struct by value).  No value of such a type may exist
+// outside the memory it was constructed in.
+func (c *Ctx) lockCopies(guarded map[*types.Named]bool) {
+	var names []*types.Named
+	for n := range guarded {
+		names = append(names, n)
+	}
+	sort.Slice(names, func(i, j int) bool { return names[i].Obj().Name() < names[j].Obj().Name() })
+	var holds func(t types.Type, n *types.Named, depth int) bool
+	holds = func(t types.Type, n *types.Named, depth int) bool {
+		if depth > 4 || t == nil {
+			return false
+		}
+		if nn, ok := t.(*types.Named); ok && nn == n {
+			return true
+		}
+		switch u := t.Underlying().(type) {
+		case *types.Struct:
+			for i := 0; i < u.NumFields(); i++ {
+				if holds(u.Field(i).Type(), n, depth+1) {
+					return true
+				}
+			}
+		case *types.Array:
+			return holds(u.Elem(), n, depth+1)
+		case *types.Tuple:
+			for i := 0; i < u.Len(); i++ {
+				if holds(u.At(i).Type(), n, depth+1) {
+					return true
+				}
+			}
+		}
+		return false
+	}
+	for _, n := range names {
+		var bad []string
+		for _, fn := range c.modFuncs {
+			for _, p := range fn.Params {
+				if holds(p.Type(), n, 0) {
+					bad = append(bad, fmt.Sprintf("%s receives a %s by value (%s)", c.fname(fn), n.Obj().Name(), c.pos(fn.Pos())))
+				}
+			}
+			eachInstr(fn, func(ins ssa.Instruction) {
+				v, ok := ins.(ssa.Value)
+				if !ok {
+					return
+				}
+				if _, isAlloc := v.(*ssa.Alloc); isAlloc {
+					return
+				}
+				if holds(v.Type(), n, 0) {
+					where := ""
+					if ins.Pos().IsValid() {
+						where = " at " + c.pos(ins.Pos())
+					}
+					bad = append(bad, fmt.Sprintf("%s holds the struct as a value%s", c.fname(fn), where))
+				}
+			})
+		}
+		name := n.Obj().Name()
+		if len(bad) > 0 {
+			c.fail("ISO-LOCK", name, "copies of "+name, n.Obj().Pos(), "values of the mutex-carrying type "+name+" are copied: a copy has a mutex of its own but shares the guarded maps, so locking it excludes no other goroutine: "+joinMax(dedup(bad), 4))
+		} else {
+			c.ok("ISO-LOCK", name, "copies of "+name, n.Obj().Pos(), "no parameter, result, load or other value of the struct type: every Lock reaches the one mutex of the object", "")
+		}
+	}
+}
+
+// onceMemos: a package-level `var f = sync.OnceValue(g)` is lazily initialised shared state whose
+// synchronisation is the once inside f — provided g runs nowhere else (a second, unsynchronised
+// execution would write whatever g builds while readers use it) and f is what the callers call.
+// What the calls return is followed by ISO-SHARED (kind memo).
+func (c *Ctx) onceMemos() {
+	for _, sp := range c.spkgs {
+		if _, ok := c.pkgs[sp.Pkg.Path()]; !ok {
+			continue
+		}
+		var gs []*ssa.Global
+		for _, m := range sp.Members {
+			if g, ok := m.(*ssa.Global); ok {
+				if _, isSig := g.Type().(*types.Pointer).Elem().Underlying().(*types.Signature); isSig && c.memoProducer(g) != nil {
+					gs = append(gs, g)
+				}
+			}
+		}
+		sort.Slice(gs, func(i, j int) bool { return gs[i].Name() < gs[j].Name() })
+		for _, g := range gs {
+			prod := c.memoProducer(g)
+			name := globalName(g)
+			var elsewhere []string
+			ncalls := 0
+			for _, fn := range c.modFuncs {
+				eachInstr(fn, func(ins ssa.Instruction) {
+					for _, op := range ins.Operands(nil) {
+						if *op == ssa.Value(prod) {
+							// the one permitted mention: the argument of sync.OnceValue(s) in the initialiser
+							if call, ok := ins.(*ssa.Call); ok && isInitFunc(fn) && call.Call.StaticCallee() != nil && strings.HasPrefix(extName(call.Call.StaticCallee()), "sync.OnceValue") {
+								continue
+							}
+							if mc, ok := ins.(*ssa.MakeClosure); ok && isInitFunc(fn) {
+								only := true
+								for _, r := range *mc.Referrers() {
+									call, isCall := r.(*ssa.Call)
+									if _, isDbg := r.(*ssa.DebugRef); isDbg {
+										continue
+									}
+									if !isCall || call.Call.StaticCallee() == nil || !strings.HasPrefix(extName(call.Call.StaticCallee()), "sync.OnceValue") {
+										only = false
+									}
+								}
+								if only {
+									continue
+								}
+							}
+							elsewhere = append(elsewhere, c.fname(fn)+" at "+c.pos(ins.Pos()))
+						}
+					}
+					if call, ok := ins.(ssa.CallInstruction); ok {
+						if ld, ok := call.Common().Value.(*ssa.UnOp); ok && ld.X == ssa.Value(g) {
+							ncalls++
+						}
+					}
+				})
+			}
+			if len(elsewhere) > 0 {
+				c.fail("ISO-LOCK", name, "initialiser of "+name, g.Pos(), "the function that builds the value cached by "+name+" (sync.OnceValue) is also reachable without the once: "+joinMax(elsewhere, 4)+"; a second execution is not ordered against the readers of the first result")
+			} else {
+				c.ok("ISO-LOCK", name, "initialiser of "+name, g.Pos(), "the building function is mentioned only as the argument of sync.OnceValue in the package initialiser", "")
+			}
+			c.ok("ISO-LOCK", name, "calls of "+name, g.Pos(), fmt.Sprintf("%d call sites obtain the value through the once (the call returns after the one execution of the initialiser has finished)", ncalls), "")
+		}
+	}
 }
